@@ -7,6 +7,7 @@ import (
 	"go/printer"
 	"go/token"
 	"sort"
+	"strconv"
 	"strings"
 )
 
@@ -192,9 +193,12 @@ func genCss(files []*srcFile) {
 	//   if COND { return true }   ...   return COND
 	//   COND ::= R.MatchString(value) | OtherHandler(value) | in(splitVals, values) | in(splitVals, colorValues)
 	type hcond struct {
-		kind  string // rx, call, in, insp
-		name  string
-		words []string
+		kind   string // rx, call, in, insp, exact, rec
+		name   string
+		words  []string
+		sep    byte
+		maxLen int // -1: no guard
+		fns    []string
 	}
 	type hdef struct {
 		fn    string
@@ -204,7 +208,11 @@ func genCss(files []*srcFile) {
 		def := hdef{fn: fd.Name.Name}
 		var values []string
 		haveValues := false
-		split := "" // "", "sv", "sp"
+		split := "" // "", "sv" (splitValues), "sp" (strings.Split on a blank), "s1" (strings.Split on another one-byte separator)
+		var sepByte byte
+		maxLen := -1
+		var used []string
+		haveUsed := false
 		cond := func(e ast.Expr) (hcond, bool) {
 			ce, ok := e.(*ast.CallExpr)
 			if !ok {
@@ -221,7 +229,18 @@ func genCss(files []*srcFile) {
 			if !ok {
 				return hcond{}, false
 			}
-			if id.Name == "in" && len(ce.Args) == 2 && isIdent(ce.Args[0], "splitVals") && split != "" {
+			if id.Name == "in" && len(ce.Args) == 2 && isIdent(ce.Args[1], "values") && haveValues {
+				// in([]string{value}, values): the value itself is a keyword
+				if cl, ok := ce.Args[0].(*ast.CompositeLit); ok && len(cl.Elts) == 1 && isIdent(cl.Elts[0], "value") {
+					if at, ok := cl.Type.(*ast.ArrayType); ok && at.Len == nil && isIdent(at.Elt, "string") {
+						return hcond{kind: "exact", words: values}, true
+					}
+				}
+			}
+			if id.Name == "recursiveCheck" && len(ce.Args) == 2 && isIdent(ce.Args[0], "splitVals") && isIdent(ce.Args[1], "usedFunctions") && haveUsed && (split == "sp" || split == "s1") {
+				return hcond{kind: "rec", sep: sepByte, maxLen: maxLen, fns: used}, true
+			}
+			if id.Name == "in" && len(ce.Args) == 2 && isIdent(ce.Args[0], "splitVals") && (split == "sv" || split == "sp") {
 				var ws []string
 				if isIdent(ce.Args[1], "values") && haveValues {
 					ws = values
@@ -275,13 +294,31 @@ func genCss(files []*srcFile) {
 						split = "sv"
 					} else if sel, ok := ce.Fun.(*ast.SelectorExpr); ok && isIdent(sel.X, "strings") && sel.Sel.Name == "Split" && len(ce.Args) == 2 && isIdent(ce.Args[0], "value") {
 						if sep, ok := strLit(ce.Args[1]); ok && sep == " " {
-							split = "sp"
+							split, sepByte = "sp", ' '
+						} else if ok && len(sep) == 1 {
+							split, sepByte = "s1", sep[0]
 						} else {
 							return def, false
 						}
 					} else {
 						return def, false
 					}
+				case isIdent(x.Lhs[0], "usedFunctions") && !haveUsed:
+					cl, ok := x.Rhs[0].(*ast.CompositeLit)
+					if !ok {
+						return def, false
+					}
+					if _, ok := cl.Type.(*ast.ArrayType); !ok {
+						return def, false
+					}
+					for _, e := range cl.Elts {
+						id, ok := e.(*ast.Ident)
+						if !ok || !handlerFuncs[id.Name] || id.Name == fd.Name.Name {
+							return def, false
+						}
+						used = append(used, id.Name)
+					}
+					haveUsed = len(used) > 0
 				default:
 					return def, false
 				}
@@ -290,6 +327,24 @@ func genCss(files []*srcFile) {
 					return def, false
 				}
 				rs, ok := x.Body.List[0].(*ast.ReturnStmt)
+				if ok && len(rs.Results) == 1 && isIdent(rs.Results[0], "false") && maxLen < 0 && split != "" {
+					// if len(splitVals) > K { return false }
+					if be, ok := x.Cond.(*ast.BinaryExpr); ok && be.Op == token.GTR {
+						if ce, ok := be.X.(*ast.CallExpr); ok && isIdent(ce.Fun, "len") && len(ce.Args) == 1 && isIdent(ce.Args[0], "splitVals") {
+							if bl, ok := be.Y.(*ast.BasicLit); ok && bl.Kind == token.INT {
+								if k, err := strconv.Atoi(bl.Value); err == nil && k >= 0 && k < 1000 {
+									maxLen = k
+									// the guard precedes only the final recursiveCheck: no condition may follow except the last return
+									if si != len(fd.Body.List)-2 && si != len(fd.Body.List)-3 {
+										return def, false
+									}
+									continue
+								}
+							}
+						}
+					}
+					return def, false
+				}
 				if !ok || len(rs.Results) != 1 || !isIdent(rs.Results[0], "true") {
 					return def, false
 				}
@@ -339,6 +394,11 @@ func genCss(files []*srcFile) {
 				for _, c := range cand[fn].conds {
 					if c.kind == "call" && !emitted[c.name] {
 						ready = false
+					}
+					for _, f := range c.fns {
+						if !emitted[f] {
+							ready = false
+						}
 					}
 				}
 				if ready {
@@ -414,6 +474,18 @@ func genCss(files []*srcFile) {
 				cs = append(cs, "CIn "+coqBytesList(c.words))
 			case "insp":
 				cs = append(cs, "CInSpace "+coqBytesList(c.words))
+			case "exact":
+				cs = append(cs, "CExact "+coqBytesList(c.words))
+			case "rec":
+				mx := "None"
+				if c.maxLen >= 0 {
+					mx = fmt.Sprintf("(Some %d%%nat)", c.maxLen)
+				}
+				var fs []string
+				for _, f := range c.fns {
+					fs = append(fs, "\""+f+"\"%string")
+				}
+				cs = append(cs, fmt.Sprintf("CRec %d %s [%s]", c.sep, mx, strings.Join(fs, "; ")))
 			}
 		}
 		fmt.Fprintf(&b, "  (\"%s\"%%string, [%s])%s\n", h.fn, strings.Join(cs, "; "), sep)
